@@ -79,9 +79,20 @@ fn gen_obj(c: &mut Choice) -> Obj {
         secs.push(S { name: pick_name(c, b".dynsym"), ty: m::SHT_DYNSYM, body: dyntab.symtab.clone(), tag: 3, align: word });
         secs.push(S { name: pick_name(c, b".dynstr"), ty: m::SHT_STRTAB, body: dyntab.strtab.clone(), tag: 4, align: 1 });
     }
+    // a stripped-style object: no .dynsym SECTION, but a dynamic table whose DT_SYMTAB/DT_STRTAB/DT_STRSZ/DT_SYMENT/DT_HASH
+    // describe a symbol table inside an identity-mapped PT_LOAD (values patched in after the layout is known). Nothing in
+    // the crate follows those tags today; if something ever does, the access paths must still agree.
+    let dt_sym = has(2) && has(0) && !has(1) && c.u8() >= 150;
     if has(2) {
         let w = {
             let mut w = m::W::new(enc);
+            if dt_sym {
+                for t in [6i64, 5, 10, 11, 4] {
+                    let d = m::Dyn { d_tag: t, d_un: 0 };
+                    d.write(&mut w);
+                    dyns_m.push(d);
+                }
+            }
             for _ in 0..1 + c.below(5) {
                 let d = m::Dyn { d_tag: if c.chance(40) { c.val(64) as i64 } else { *c.pick(&[1i64, 5, 6, 0x6ffffef5, -2, 0, 16, 22, 24, 30, 0x6ffffffb, 0x7fffffff]) }, d_un: c.val(64) };
                 d.write(&mut w);
@@ -251,8 +262,25 @@ fn gen_obj(c: &mut Choice) -> Obj {
         let j = c.idx(i + 1);
         f.segs.swap(i, j);
     }
+    if dt_sym {
+        f.segs.push(Seg { hdr: m::Phdr { p_type: m::PT_LOAD, p_flags: 5, p_offset: 0, p_vaddr: 0, p_paddr: 0, p_filesz: 1 << 20, p_memsz: 1 << 20, p_align: 0x1000 }, covers: None });
+    }
     filegen::random_layout(c, &mut f, 16);
-    let b = filegen::build(&f);
+    let mut b = filegen::build(&f);
+    if dt_sym {
+        let at = |tag: u8| idx_of.get(&tag).map(|i| b.body_at[*i]);
+        if let (Some((dyn_off, _)), Some((sym_off, _)), Some((str_off, str_len))) = (at(5), at(1), at(2)) {
+            let hash_off = at(6).map(|x| x.0 as u64).unwrap_or(0);
+            let vals = [sym_off as u64, str_off as u64, str_len as u64, m::sym_size(enc) as u64, hash_off];
+            let (es, wd) = (m::dyn_size(enc), if enc.c64 { 8 } else { 4 });
+            for (k, v) in vals.iter().enumerate() {
+                let p = dyn_off + k * es + wd;
+                let bytes = if enc.le { v.to_le_bytes()[..wd].to_vec() } else { v.to_be_bytes()[8 - wd..].to_vec() };
+                b.bytes[p..p + wd].copy_from_slice(&bytes);
+                dyns_m[k].d_un = *v;
+            }
+        }
+    }
     let rels: Vec<(usize, Vec<m::Rel>)> = rels_m.into_iter().map(|(t, v)| (idx_of[&(t as u8)], v)).collect();
     let relas: Vec<(usize, Vec<m::Rela>)> = relas_m.into_iter().map(|(t, v)| (idx_of[&(t as u8)], v)).collect();
     Obj { enc, b, names, sec_names, rels, relas, dyns: dyns_m, kinds_present: (mask & 0x1f) as u32, has_pt_dynamic }
@@ -688,7 +716,7 @@ pub fn property() -> Property {
     Property {
         id: "C20",
         level: "exploration",
-        rule: "cases are generated objects with at most one section of each kind, each of .symtab(+strtab), .dynsym(+dynstr), .dynamic, .hash, .gnu.hash present or absent independently, 1..5 filler sections of types REL/RELA/NOTE/STRTAB/NOBITS/PROGBITS with arbitrary sh_entsize and flags such as SHF_STRINGS/SHF_MERGE/SHF_INFO_LINK (an eighth of the REL/RELA sections flagged SHF_COMPRESSED behind a compression header, where the view is the view over section_data), sections in shuffled order (5%: no SHT_NULL entry in front; rarely 65 541+ sections so that indexes and sh_link values exceed 16 bits), names drawn from a pool of prefixes/suffixes of each other, duplicates, the empty name, a non-UTF-8 name, names differing from another by a trailing 0x01/0x7f/U+0080 byte and names longer than 16 bytes, sh_link of the symbol tables pointing at their string table or at ANY section, PT_DYNAMIC only together with .dynamic, PT_NOTE/other segments, class x order x fixed/run-time spec. Oracle: find_common_data() fields vs symbol_table(), dynamic_symbol_table(), dynamic() (presence, every entry, strings at every offset) and vs hash tables rebuilt from section_data (every name looked up through both); section_header_by_name(n) (both parsers) = first header of a manual scan whose UTF-8 name string equals n, for every present name, prefixes, extensions, absent names and queries containing NULs that line up with adjacent string-table entries; every section handed to every typed view (strtab, rels, relas, notes; both parsers): refused iff the type differs, otherwise entries equal the encoded model / the reference walk of the raw bytes; segment_data_as_notes refused iff p_type != PT_NOTE; dynamic() via .dynamic equals dynamic() and find_common_data().dynamic of the stripped twin (e_shoff=0) via PT_DYNAMIC, both parsers. Non-trivial: >=3 kinds present, at least one wrong-type refusal and one duplicate/prefix name query; distinct by file hash. Subcheck damaged: the same objects with one or two fields (sh_entsize, sh_link, sh_size, sh_offset) of the .symtab/.dynsym/.dynamic/.hash/.gnu.hash section headers overwritten with wrong values (0, off by one, the other class's size, counts, beyond EOF, 2^32+right): find_common_data() succeeds exactly when symbol_table(), dynamic_symbol_table(), dynamic() and the hash-table constructors on the raw section bytes all succeed, and then holds the same tables; non-trivial there: both refuse.",
+        rule: "cases are generated objects with at most one section of each kind, each of .symtab(+strtab), .dynsym(+dynstr), .dynamic, .hash, .gnu.hash present or absent independently, 1..5 filler sections of types REL/RELA/NOTE/STRTAB/NOBITS/PROGBITS with arbitrary sh_entsize and flags such as SHF_STRINGS/SHF_MERGE/SHF_INFO_LINK (an eighth of the REL/RELA sections flagged SHF_COMPRESSED behind a compression header, where the view is the view over section_data), sections in shuffled order (5%: no SHT_NULL entry in front; rarely 65 541+ sections so that indexes and sh_link values exceed 16 bits), names drawn from a pool of prefixes/suffixes of each other, duplicates, the empty name, a non-UTF-8 name, names differing from another by a trailing 0x01/0x7f/U+0080 byte and names longer than 16 bytes, sh_link of the symbol tables pointing at their string table or at ANY section, PT_DYNAMIC only together with .dynamic, PT_NOTE/other segments, a share of the objects without a .dynsym section carrying DT_SYMTAB/DT_STRTAB/DT_STRSZ/DT_SYMENT/DT_HASH entries that point at a symbol table inside an identity-mapped PT_LOAD, class x order x fixed/run-time spec. Oracle: find_common_data() fields vs symbol_table(), dynamic_symbol_table(), dynamic() (presence, every entry, strings at every offset) and vs hash tables rebuilt from section_data (every name looked up through both); section_header_by_name(n) (both parsers) = first header of a manual scan whose UTF-8 name string equals n, for every present name, prefixes, extensions, absent names and queries containing NULs that line up with adjacent string-table entries; every section handed to every typed view (strtab, rels, relas, notes; both parsers): refused iff the type differs, otherwise entries equal the encoded model / the reference walk of the raw bytes; segment_data_as_notes refused iff p_type != PT_NOTE; dynamic() via .dynamic equals dynamic() and find_common_data().dynamic of the stripped twin (e_shoff=0) via PT_DYNAMIC, both parsers. Non-trivial: >=3 kinds present, at least one wrong-type refusal and one duplicate/prefix name query; distinct by file hash. Subcheck damaged: the same objects with one or two fields (sh_entsize, sh_link, sh_size, sh_offset) of the .symtab/.dynsym/.dynamic/.hash/.gnu.hash section headers overwritten with wrong values (0, off by one, the other class's size, counts, beyond EOF, 2^32+right): find_common_data() succeeds exactly when symbol_table(), dynamic_symbol_table(), dynamic() and the hash-table constructors on the raw section bytes all succeed, and then holds the same tables; non-trivial there: both refuse.",
         assumptions: &["only refusal (Err) is required for wrong-type views, not a particular error kind", "in subcheck paths objects are well formed, so find_common_data and the targeted accessors are required to succeed; in subcheck damaged only their agreement is required"],
         subs: vec![Sub::new("paths", oracle, 900, 800_000, 25_000_000).shrink(2500), Sub::new("damaged", oracle_damaged, 900, 150_000, 10_000_000).shrink(2500)],
         extras: vec![crate::fuzz::c20_choice_paths, crate::fuzz::c20_choice_damaged],
